@@ -13,7 +13,7 @@ use std::rc::Rc;
 pub static ENGINE: Engine = Engine {
     prop: "C02",
     level: "model_checking",
-    rule: "oracle = canon(f), a reduced ordered diagram built from the expected truth table with plain BDD::Choice values (no rsbdd function). (1) the complete API closure of C03 and the complete evaluator closure of C01 (k=2,3: every operator incl. quantifier lists and counting on every operand tuple): every transition result must be literally == canon, hash-equal, ordered and reduced, is_true/is_false iff valid/unsatisfiable; (2) every f in F_4 (65536) along seven construction routes (Shannon/ite top-down and bottom-up, DNF, CNF, double negation, xor twice, rename-and-quantify detour) in a shared and in a fresh environment: all routes == canon(f), pairwise ==, equal across environments; (3) `==` between diagrams of two environments holds iff the truth tables agree, for all 256x256 pairs; (4) outputs of model / retain / exists / all / aln / amn / exn on every f in F_4 are canonical for the function they denote. One representative of each of the 222 classes of four-variable functions (under input permutation / input negation / output negation) against ALL 65 536 functions in both operand positions under and / or (every connective in thorough). Thorough tier additionally: COMPLETE operand pairs over F_4 (2^16 x 2^16) for and / or (the connectives with a recursion of their own; VCHECK_PAIRS4_OPS=all for all seven), result compared structurally with canon of the pointwise table; every unary/binary connective on all of F_3 in a BDDEnv<NamedSymbol> whose ids agree in their low 32 bits (both tiers). distinct = distinct (route or operator, operands)",
+    rule: "oracle = canon(f), a reduced ordered diagram built from the expected truth table with plain BDD::Choice values (no rsbdd function). (1) the complete API closure of C03 and the complete evaluator closure of C01 (k=2,3: every operator incl. quantifier lists and counting on every operand tuple): every transition result must be literally == canon, hash-equal, ordered and reduced, is_true/is_false iff valid/unsatisfiable; (2) every f in F_4 (65536) along seven construction routes (Shannon/ite top-down and bottom-up, DNF, CNF, double negation, xor twice, rename-and-quantify detour) in a shared and in a fresh environment: all routes == canon(f), pairwise ==, equal across environments; (3) `==` between diagrams of two environments holds iff the truth tables agree, for all 256x256 pairs; (4) outputs of model / retain / exists / all / aln / amn / exn on every f in F_4 are canonical for the function they denote. One representative of each of the 222 classes of four-variable functions (under input permutation / input negation / output negation) against ALL 65 536 functions in both operand positions under and / or (every connective in thorough). Thorough tier additionally: COMPLETE operand pairs over F_4 (2^16 x 2^16) for and / or (the connectives with a recursion of their own; VCHECK_PAIRS4_OPS=all for all seven), result compared structurally with canon of the pointwise table; every unary/binary connective on all of F_3 in a BDDEnv<NamedSymbol> whose ids agree in their low 32 bits (both tiers). Deep twins: in one environment, conjunction chains of depth 1..200 continued by five different tails (diagrams that differ only below the chain), each compared node for node with the hand-built chain diagram by the harness's own walker, `==`/hash equal to its recomputation and to the hand-built diagram, and unequal to every other twin. distinct = distinct (route or operator, operands)",
     assumptions: &["canon() and the ordered/reduced walker in harness/src/robdd.rs are the trusted definition of 'reduced ordered'", "k <= 4 variables; orders with gaps (ids 0,3,4,9 / 1,4,6) and NamedSymbol orders"],
     max_shards: 64,
     run,
@@ -124,6 +124,82 @@ fn route(env: &BDDEnv<usize>, r: usize, tt: u64) -> H {
             env.xor(env.xor(dnf(env, &SYMS4, tt), v.clone()), v)
         }
         _ => detour(env, tt),
+    }
+}
+
+/// Twins that differ only far below the root: in ONE environment, for every depth d, the
+/// conjunction x0 & .. & x(d-1) continued by each of five tails over x(d), x(d+1) — built by the
+/// engine through `and` / `or` / `not` / `xor`. Every result must be, node for node, the chain
+/// diagram constructed here by hand (compared by a walker of this harness, not by the
+/// subject's `==`), and the subject's `==` / hash must separate every two twins of one depth
+/// (they denote different functions) and identify a twin with its recomputation.
+fn deep_twins(ctx: &mut Ctx) {
+    for d in [1usize, 2, 3, 5, 7, 8, 9, 10, 12, 15, 16, 17, 24, 31, 32, 33, 40, 64, 65, 100, 200] {
+        if !ctx.mine(d as u64) {
+            continue;
+        }
+        let case = json!({"part": "deep-twins", "depth": d});
+        ctx.begin_case(|| case.clone());
+        ctx.count("deep_twin_depths", 1);
+        ctx.count("distinct_by_construction", 1);
+        let key = format!("{TAG} twins below depth {d} in one environment");
+        let r = guarded(|| {
+            let env = Rc::new(BDDEnv::<usize>::new());
+            let id = |i: usize| 3 * i + 1;
+            let t = || Rc::new(BDD::True);
+            let f = || Rc::new(BDD::False);
+            let lit = |i: usize, pos: bool| if pos { Rc::new(BDD::Choice(t(), id(i), f())) } else { Rc::new(BDD::Choice(f(), id(i), t())) };
+            // expected tails over x(d), x(d+1), built by hand
+            let tails_ref: Vec<(&str, H)> = vec![
+                ("x(d)", lit(d, true)),
+                ("-x(d)", lit(d, false)),
+                ("x(d) & x(d+1)", Rc::new(BDD::Choice(lit(d + 1, true), id(d), f()))),
+                ("x(d) | x(d+1)", Rc::new(BDD::Choice(t(), id(d), lit(d + 1, true)))),
+                ("x(d) ^ x(d+1)", Rc::new(BDD::Choice(lit(d + 1, false), id(d), lit(d + 1, true)))),
+            ];
+            let build = |k: usize| -> H {
+                let (xd, xe) = (env.var(id(d)), env.var(id(d + 1)));
+                let tail = match k {
+                    0 => xd,
+                    1 => env.not(xd),
+                    2 => env.and(xd, xe),
+                    3 => env.or(xd, xe),
+                    _ => env.xor(xd, xe),
+                };
+                // x0 & (x1 & (.. & tail)), assembled from the bottom so every step is one `and`
+                (0..d).rev().fold(tail, |acc, i| env.and(env.var(id(i)), acc))
+            };
+            let mut c: Vec<String> = vec![];
+            let mut got: Vec<H> = vec![];
+            for (k, (name, tail)) in tails_ref.iter().enumerate() {
+                let want = (0..d).rev().fold(tail.clone(), |acc, i| Rc::new(BDD::Choice(acc, id(i), f())));
+                let a = build(k);
+                let b = build(k);
+                if !robdd::same_by(&a, &want, &|x, y| x == y) {
+                    c.push(format!("x0 & .. & x{} & ({name}) is not the chain diagram of that function", d - 1));
+                }
+                if *a != *b || a.get_hash() != b.get_hash() {
+                    c.push(format!("the twin with tail {name} does not compare / hash equal to its recomputation"));
+                }
+                if *a != *want || a.get_hash() != want.get_hash() {
+                    c.push(format!("the twin with tail {name} does not compare / hash equal to the same diagram built outside the environment"));
+                }
+                got.push(a);
+            }
+            for i in 0..got.len() {
+                for j in 0..i {
+                    if *got[i] == *got[j] {
+                        c.push(format!("twins with tails {} and {} denote different functions but compare equal", tails_ref[i].0, tails_ref[j].0));
+                    }
+                }
+            }
+            c
+        });
+        match r {
+            Err(p) => ctx.violation(key, format!("panicked: {p}"), case),
+            Ok(c) if !c.is_empty() => ctx.violation(key, c.into_iter().take(3).collect::<Vec<_>>().join("; "), case),
+            Ok(_) => ctx.count("transitions", 10 * (d as u64 + 2)),
+        }
     }
 }
 
@@ -294,6 +370,7 @@ fn run(ctx: &mut Ctx) {
             }
         }
     }
+    deep_twins(ctx);
     sweep_named_wide(ctx, ORACLE, TAG);
     // every shape of four-variable function against all of F_4, both operand positions
     reps4_sweep(ctx, ORACLE, TAG, if ctx.thorough() { &crate::refl::ALL_BINS } else { &[crate::refl::Bin::And, crate::refl::Bin::Or] });
@@ -328,6 +405,14 @@ fn replay(ctx: &mut Ctx, case: &Value) {
         }
         Some("eval-node") | Some("eval-init") => replay_eval(ctx, case, ORACLE, TAG),
         Some("family6") => replay_family6(ctx, case, ORACLE, TAG),
+        Some("deep-twins") => {
+            let d = case["depth"].as_u64().unwrap_or(9);
+            let mut c2 = Ctx::new("C02", ctx.tier, ctx.seed, d % 1024, 1024);
+            deep_twins(&mut c2);
+            for v in c2.violations {
+                ctx.violation(v.key, v.what, v.replay);
+            }
+        }
         Some("named-wide") => replay_named_wide(ctx, case, ORACLE, TAG),
         _ => replay_api(ctx, case, ORACLE, TAG),
     }
